@@ -197,6 +197,10 @@ let split_case (line : string) : (string * string array * string) option =
   | _ -> None
 
 let () =
+  if Array.length Sys.argv > 1 && Sys.argv.(1) = "--trace" then begin
+    Ext.run_traces (List.tl (List.tl (Array.to_list Sys.argv)));
+    exit 0
+  end;
   let cases = ref 0 and mism = ref 0 in
   let by_kind : (string, int) Hashtbl.t = Hashtbl.create 16 in
   for i = 1 to Array.length Sys.argv - 1 do
